@@ -212,6 +212,12 @@ async def _history(case: dict, router) -> Outcome:
                 registered.add(i)
                 accept[i] |= set(pts)
                 for s in ssrcs:
+                    if s in latched and claims.get(s) not in (None, [i]):
+                        # an SSRC that had merely stuck to a receiver by payload type is now registered by another one:
+                        # "the one registered for its SSRC" is the registrant
+                        claims[s] = []
+                        classes.add("latch-then-registered-elsewhere")
+                    latched.discard(s)
                     lst = claims.setdefault(s, [])
                     if i not in lst:
                         lst.append(i)
